@@ -370,11 +370,14 @@ class PusTc(AbstractSpacePacket):
 
     @app_data.setter
     def app_data(self, app_data: bytes):
-        self._app_data = app_data
-        self.sp_header.data_len = self.get_data_length(
+        data_len = self.get_data_length(
             secondary_header_len=self.pus_tc_sec_header.get_header_size(),
             app_data_len=len(app_data),
         )
+        if data_len > pow(2, 16) - 1:
+            raise ValueError("application data too large for the 16 bit data length field")
+        self._app_data = app_data
+        self.sp_header.data_len = data_len
 
     @property
     def crc16(self) -> Optional[bytes]:
